@@ -1,4 +1,4 @@
-\* quick universe: every class of the statement's quantifier, small cross product (all of it replayed on the code)
+\* strict reading of "currently": EXPECTED to fail (a resumed TLS session outlives the revocation of its certificate)
 CONSTANTS
   Impl = "intended"
   CNs = {"X", "bad"}
@@ -25,4 +25,4 @@ CONSTANTS
   Presents = {"same", "nocert"}
 INIT Init
 NEXT Next
-INVARIANTS AuthSound VpcSound ScopeSound Complete ResumeSound ResumeScope
+INVARIANTS RevocationEffective
